@@ -74,6 +74,7 @@ pp_semaphore_create_handle (PSemaphore	*sem,
 			    PError	**error)
 {
 	pint init_val;
+	pint open_flags = 0;
 
 	if (P_UNLIKELY (sem == NULL || sem->platform_key == NULL)) {
 		p_error_set_error_p (error,
@@ -95,17 +96,21 @@ pp_semaphore_create_handle (PSemaphore	*sem,
 
 	if (sem->sem_hdl == P_SEM_INVALID_HDL) {
 		if (p_error_get_last_system () == EEXIST) {
-			if (sem->mode == P_SEM_ACCESS_CREATE)
+			if (sem->mode == P_SEM_ACCESS_CREATE) {
 				sem_unlink (sem->platform_key);
-			else
+				open_flags = O_CREAT;
+			} else
 				init_val = 0;
 
 			while ((sem->sem_hdl = sem_open (sem->platform_key,
-							 0,
-							 0,
+							 open_flags,
+							 0660,
 							 init_val)) == P_SEM_INVALID_HDL &&
 				p_error_get_last_system () == EINTR)
 				;
+
+			if (sem->sem_hdl != P_SEM_INVALID_HDL && open_flags != 0)
+				sem->sem_created = TRUE;
 		}
 	} else
 		sem->sem_created = TRUE;
